@@ -37,7 +37,10 @@ type pipeVec struct {
 	// and no hand-shake (what a renderer does); gmp > 0 sets GOMAXPROCS for the run (a render that is over before the
 	// consumer goroutine has been scheduled for the first time is only seen this way)
 	Free bool `json:"free,omitempty"`
-	Gmp  int  `json:"gmp,omitempty"`
+	// free runs only: Close() after every write as well (a composite renderer that draws several parts, each
+	// ending with Close as every library Render does, into one output)
+	Parts bool `json:"parts,omitempty"`
+	Gmp   int  `json:"gmp,omitempty"`
 }
 
 // gate is the scheduler gate driven by the hooks.
@@ -212,6 +215,9 @@ func runSchedule(r *scripted3, write func(lo, n int), closeBuf func()) {
 			if st.Op == "W" {
 				write(r.next, st.N)
 				r.next += st.N
+				if r.v.Parts {
+					closeBuf()
+				}
 			}
 		}
 		closeBuf()
